@@ -191,4 +191,119 @@ theorem block_seek_sound (C : Crypto) (bs : Array Bytes) (t : Tree) (f : File) (
             · exact Or.inl hcol
             · exact Or.inr ⟨h1, hbn, d, o, hidx, g1, fun hl => (g2 hl).2⟩
 
+/-- **hash + seek proofs** (the usual shape: the hash section starts with the requested node): the requested node carries
+    the writer's hash; if its size is the writer's, every node of the hash section and the seek root are the writer's,
+    so the bottom node of the seek section carries the writer's hash, and if that node's size is the writer's too,
+    every node of the seek section is the writer's -/
+theorem hash_seek_sound (C : Crypto) (bs : Array Bytes) (t : Tree) (f : File) (pk : Bytes) (p : Proof) (hsec : DataHash) (s : DataSeek)
+    (m0 : Node) (hrest : List Node) (n0 : Node) (srest : List Node) (cs : Changeset) (hb : p.block = none) (hh : p.hash = some hsec)
+    (hhn : hsec.nodes = m0 :: hrest) (hs : p.seek = some s) (hsn : s.nodes = n0 :: srest) (hu : p.upgrade = none)
+    (hcan : Canon n0.index) (hcanh : Canon hsec.index) (hauth : StoreAuthentic C bs t f) (hv : t.verifyProof C f p pk = .ok cs) :
+    Collision C ∨ ∃ dh oh d o, hsec.index = Flat.index dh oh ∧ n0.index = Flat.index d o ∧
+      ((∃ sroot : Node, sroot.index = hsec.index ∧ sroot.hash = (RefTree.node C bs dh oh).2 ∧ n0.hash = (RefTree.node C bs d o).2
+          ∧ (n0.length = (RefTree.node C bs d o).1 → ∀ n ∈ srest, ∃ dn on, n = nodeAt C bs dn on))
+        ∨ (m0.index = hsec.index ∧ m0.hash = (RefTree.node C bs dh oh).2
+          ∧ (m0.length = (RefTree.node C bs dh oh).1 → (∀ n ∈ hrest, ∃ dn on, n = nodeAt C bs dn on)
+              ∧ (Collision C ∨ (n0.hash = (RefTree.node C bs d o).2
+                ∧ (n0.length = (RefTree.node C bs d o).1 → ∀ n ∈ srest, ∃ dn on, n = nodeAt C bs dn on)))))) := by
+  obtain ⟨d, o, _, hidx, hnew⟩ := canon_new n0.index hcan
+  obtain ⟨dh, oh, _, hidxh, hnewh⟩ := canon_new hsec.index hcanh
+  unfold verifyProof at hv
+  simp only [hb, hh, hs, hu, verifyTree, untrustedOf, noSeekOf, hsn, List.isEmpty_cons, Option.isNone_some, Bool.false_and,
+    Bool.false_eq_true, ite_false, seekHalf, andThen, hnew, plainQueue_eq] at hv
+  have hi : n0.index = (iat d o).index := hidx
+  rw [shift_plain n0 srest _ hi] at hv
+  simp only [] at hv
+  cases hcs : climb C ((plainQueue srest).length + 1) (plainQueue srest) (iat d o) n0 (n0 :: t.changeset.rnodes) with
+  | error e => rw [hcs] at hv; simp at hv
+  | ok pr =>
+    obtain ⟨sroot, rn1⟩ := pr
+    rw [hcs] at hv
+    obtain ⟨hsidx, hssound⟩ := climb_sound C bs srest _ d o n0 _ sroot rn1 hcs hidx
+    simp only [mainHalf, hnewh, andThen, hhn] at hv
+    have hq : NodeQueue.new (m0 :: hrest) (some sroot) = ⟨m0 :: hrest, some sroot, (m0 :: hrest).length + 1⟩ := by simp [NodeQueue.new]
+    rw [hq] at hv
+    simp only [NodeQueue.shift] at hv
+    by_cases hx : sroot.index = (iat dh oh).index
+    · -- the seek root is the requested node itself
+      simp only [hx, ite_true] at hv
+      have hq2 : (⟨m0 :: hrest, none, (m0 :: hrest).length + 1 - 1⟩ : NodeQueue) = plainQueue (m0 :: hrest) := by simp [plainQueue]
+      rw [hq2] at hv
+      cases hcb : climb C ((m0 :: hrest).length + 1 - 1 + 1) (plainQueue (m0 :: hrest)) (iat dh oh) sroot (sroot :: rn1) with
+      | error e => rw [hcb] at hv; simp at hv
+      | ok pr2 =>
+        obtain ⟨root, rn2⟩ := pr2
+        rw [hcb] at hv
+        simp only [] at hv
+        cases hreq : t.requiredNode f root.index with
+        | error e => rw [hreq] at hv; simp at hv
+        | ok v =>
+          rw [hreq] at hv
+          simp only [] at hv
+          by_cases hne : v.hash ≠ root.hash
+          · simp [hne] at hv
+          · have heq : v.hash = root.hash := by simpa using hne
+            have hx' : sroot.index = Flat.index dh oh := hx
+            obtain ⟨hridx, hsound⟩ := climb_sound C bs (m0 :: hrest) _ dh oh sroot _ root rn2 hcb hx'
+            have hnode := requiredNode_node? t f _ v hreq
+            rw [hridx] at hnode
+            have hrh : root.hash = (RefTree.node C bs (dh + (m0 :: hrest).length) (oh / 2 ^ (m0 :: hrest).length)).2 := by
+              rw [← heq]; exact hauth _ _ _ hnode
+            rcases hsound hrh with hcol | ⟨h1, _⟩
+            · exact Or.inl hcol
+            · have hpos : Flat.index dh oh = Flat.index (d + srest.length) (o / 2 ^ srest.length) := by rw [← hsidx, hx']
+              obtain ⟨e1, e2⟩ := index_inj _ _ _ _ hpos
+              have hsh : sroot.hash = (RefTree.node C bs (d + srest.length) (o / 2 ^ srest.length)).2 := by rw [← e1, ← e2]; exact h1
+              rcases hssound hsh with hcol | ⟨g1, g2⟩
+              · exact Or.inl hcol
+              · exact Or.inr ⟨dh, oh, d, o, hidxh, hidx, Or.inl ⟨sroot, by rw [hx', hidxh], h1, g1, fun hl => (g2 hl).2⟩⟩
+    · simp only [hx, ite_false] at hv
+      by_cases hm : m0.index = (iat dh oh).index
+      · simp only [hm, ne_eq, not_true_eq_false, ite_false] at hv
+        have hq3 : (⟨hrest, some sroot, (m0 :: hrest).length + 1 - 1⟩ : NodeQueue) = ⟨hrest, some sroot, hrest.length + 1⟩ := by simp
+        rw [hq3] at hv
+        cases hcb : climb C ((m0 :: hrest).length + 1 - 1 + 1) ⟨hrest, some sroot, hrest.length + 1⟩ (iat dh oh) m0 (m0 :: rn1) with
+        | error e => rw [hcb] at hv; simp at hv
+        | ok pr2 =>
+          obtain ⟨root, rn2⟩ := pr2
+          rw [hcb] at hv
+          simp only [] at hv
+          cases hreq : t.requiredNode f root.index with
+          | error e => rw [hreq] at hv; simp at hv
+          | ok v =>
+            rw [hreq] at hv
+            simp only [] at hv
+            by_cases hne : v.hash ≠ root.hash
+            · simp [hne] at hv
+            · have heq : v.hash = root.hash := by simpa using hne
+              have hm' : m0.index = Flat.index dh oh := hm
+              obtain ⟨j, hj, hplain⟩ := climb_extra C sroot hrest _ _ _ _ root rn2 hcb
+              generalize hL : hrest.take j ++ sroot :: hrest.drop j = L at hplain
+              obtain ⟨hridx, hsound⟩ := climb_sound C bs L _ dh oh m0 _ root rn2 hplain hm'
+              have hnode := requiredNode_node? t f _ v hreq
+              rw [hridx] at hnode
+              have hrh : root.hash = (RefTree.node C bs (dh + L.length) (oh / 2 ^ L.length)).2 := by
+                rw [← heq]; exact hauth _ _ _ hnode
+              rcases hsound hrh with hcol | ⟨h1, h2⟩
+              · exact Or.inl hcol
+              · refine Or.inr ⟨dh, oh, d, o, hidxh, hidx, Or.inr ⟨by rw [hm', hidxh], h1, fun hl => ?_⟩⟩
+                obtain ⟨_, h3⟩ := h2 hl
+                have hsin : sroot ∈ L := by rw [← hL]; simp
+                obtain ⟨dn, on, hsr⟩ := h3 sroot hsin
+                have hpos : Flat.index dn on = Flat.index (d + srest.length) (o / 2 ^ srest.length) := by rw [← hsidx, hsr]; rfl
+                obtain ⟨e1, e2⟩ := index_inj _ _ _ _ hpos
+                have hsh : sroot.hash = (RefTree.node C bs (d + srest.length) (o / 2 ^ srest.length)).2 := by rw [hsr, e1, e2]; rfl
+                refine ⟨fun n hn => ?_, ?_⟩
+                · apply h3 n
+                  rw [← hL]
+                  have := List.take_append_drop j hrest
+                  rw [← this] at hn
+                  rcases List.mem_append.mp hn with h | h
+                  · exact List.mem_append.mpr (Or.inl h)
+                  · exact List.mem_append.mpr (Or.inr (List.mem_cons_of_mem _ h))
+                · rcases hssound hsh with hcol | ⟨g1, g2⟩
+                  · exact Or.inl hcol
+                  · exact Or.inr ⟨g1, fun hl2 => (g2 hl2).2⟩
+      · simp [hm] at hv
+
 end HC.SeekSound
